@@ -209,7 +209,7 @@ def conds_streamHTTP_readMsg : List String := [
    "return s.recvCount, nil, io.EOF",
    "if s.method.desc.IsStreamingClient()",
    "if !ok",
-   "return count, nil, fmt.Errorf(\"codec %q does not support streaming\", codec.Name())",
+   "return count, nil, fmt.Errorf(\"codec %q does not support streaming\", c.Name())",
    "if err == io.EOF",
    "switch",
    "case n > 0",
@@ -229,7 +229,7 @@ def stmts_streamHTTP_readMsg : List String := [
    "if s.method.desc.IsStreamingClient() {",
    "codec, ok := c.(StreamCodec)",
    "if !ok {",
-   "return count, nil, fmt.Errorf(\"codec %q does not support streaming\", codec.Name())",
+   "return count, nil, fmt.Errorf(\"codec %q does not support streaming\", c.Name())",
    "}",
    "b = append(b, s.rbuf...)",
    "b, n, err := codec.ReadNext(b, s.r, s.opts.maxReceiveMessageSize)",
